@@ -24,6 +24,9 @@ pub struct Gadget {
     pub name: String,
     pub inputs: Vec<Fe>,
     pub f: GadgetFn,
+    /// pass the composer's own constant witnesses `Composer::ZERO` / `ONE` for
+    /// inputs whose value is 0 / 1 instead of allocating fresh witnesses
+    pub const_handles: bool,
 }
 
 #[derive(Clone, Default, Debug)]
@@ -34,11 +37,16 @@ pub struct Meta {
 }
 
 impl Gadget {
+    pub fn with_const_handles(mut self) -> Self {
+        self.const_handles = true;
+        self.name = format!("{}/const-handles", self.name);
+        self
+    }
     pub fn new<F>(name: &str, inputs: Vec<Fe>, f: F) -> Self
     where
         F: Fn(&mut Composer, &[Witness]) -> Result<Vec<Witness>, Error> + Send + Sync + 'static,
     {
-        Gadget { name: name.to_string(), inputs, f: Arc::new(f) }
+        Gadget { name: name.to_string(), inputs, f: Arc::new(f), const_handles: false }
     }
     /// The circuit: allocate the pinned inputs, run the gadget, record the
     /// adversary-controlled ordinal range and the returned witnesses.
@@ -47,8 +55,20 @@ impl Gadget {
         let m2 = meta.clone();
         let inputs = self.inputs.clone();
         let f = self.f.clone();
+        let const_handles = self.const_handles;
         let p = Prog::new(move |c| {
-            let ins: Vec<Witness> = inputs.iter().map(|v| c.append_witness(*v)).collect();
+            let ins: Vec<Witness> = inputs
+                .iter()
+                .map(|v| {
+                    if const_handles && *v == zero() {
+                        Composer::ZERO
+                    } else if const_handles && *v == one() {
+                        Composer::ONE
+                    } else {
+                        c.append_witness(*v)
+                    }
+                })
+                .collect();
             // pin rows: every input witness also sits on a (selector-free) row of
             // its own, standing for "wherever the input came from", so that
             // detaching a gadget wire from its input breaks a copy constraint
